@@ -430,6 +430,20 @@ class Driver:
         return out
 
 
+def pmap(fn, items, procs=None, chunksize=4):
+    """Parallel map over worker processes (fork). `fn` must be a module-level function; results must pickle.
+    The number of workers is bounded so that several checks can run side by side."""
+    import multiprocessing as mp
+    items = list(items)
+    if procs is None:
+        procs = int(os.environ.get("VERIF_PROCS", "0") or 0) or max(1, min(12, (os.cpu_count() or 2) - 2))
+    if procs <= 1 or len(items) < 4:
+        return [fn(x) for x in items]
+    ctx = mp.get_context("fork")
+    with ctx.Pool(procs) as pool:
+        return pool.map(fn, items, chunksize=chunksize)
+
+
 # ---------------------------------------------------------------------- helpers for protocol values
 def rat(x):
     """Exact rational text n/d of a Python int/float/Fraction/str decimal."""
